@@ -23,6 +23,7 @@ def main():
     if a.prop == "setup":
         return setup()
     mod = importlib.import_module("checks.%s" % a.prop.lower())
+    C.use_tree(a.prop)
     run = C.Run(a.prop, a.tier, seed)
     try:
         return mod.check(run, replay=a.replay)
@@ -50,6 +51,7 @@ def setup():
         try:
             mod = importlib.import_module("checks.%s" % i.lower())
             if hasattr(mod, "prebuild"):
+                C.use_tree(i)
                 mod.prebuild()
         except Exception:
             traceback.print_exc()
